@@ -35,6 +35,9 @@ TEXT = {
     'closed': "Connection closed by remote host\r\n",
     'yesno': "Please type 'yes' or 'no': ",
     'notice': "Notice: change your password: it expires in 3 days\r\n",
+    # a message of the day that mentions the word without asking anything (no "password:", no prompt character),
+    # followed by lines that contain a colon
+    'expiry': "Your password will expire in 3 days.\r\nLast login: Mon Oct  5 05:00:00 2026 from 10.0.0.1\r\n",
 }
 ORIG_PROMPT = {'sh': 'user@h:~$ ', 'csh': 'h% # ', 'zsh': 'h$ '}
 # the inner host of a two-hop login: other user, other prompts
@@ -82,7 +85,7 @@ class FakeServer(object):
         while True:
             if self.stages:
                 st = self.stages.pop(0)
-                if st in ('banner', 'notice'):
+                if st in ('banner', 'notice', 'expiry'):
                     self.emit(st)
                     continue
                 if st == 'wait':
